@@ -256,7 +256,8 @@ func sortInts(a []int) {
 	}
 }
 
-var readSchedules = [][]int{{1}, {2}, {7}, {258}, {4096}, {70000}, {1, 2, 3, 5, 8, 13, 21, 400, 1}, {65536}, {3, 70000}}
+// (-1: the rest of the stream is drained with io.Copy, which uses the Reader's WriteTo if it has one)
+var readSchedules = [][]int{{1}, {2}, {7}, {258}, {4096}, {70000}, {1, 2, 3, 5, 8, 13, 21, 400, 1}, {65536}, {3, 70000}, {1, -1}, {-1}, {300, 5, -1}}
 var chunkSchedules = [][]int{{1}, {2}, {3}, {7}, {8}, {9}, {23}, {24}, {25}, {327}, {328}, {329}, {4095}, {4096}, {4097}, {0}, {1, 100, 7, 5000, 2}, {4096, 1}}
 var bufioSizes = []int{16, 17, 64, 4096, 65536, 1 << 20}
 
@@ -341,6 +342,12 @@ func checkC04(c *Ctx) (int, error) {
 				for ri, rd := range readSchedules {
 
 					add(RSource{Kind: "bufio", BufSize: bs, Chunks: chunkSchedules[(bi*3+ri)%len(chunkSchedules)], FailAt: -1, Released: -1, EOFData: ri%2 == 1}, rd)
+				}
+			}
+			// sources that are (statically) more than an io.Reader: io.Seeker, io.WriterTo, Len ...
+			for ki, kd := range []string{"seeker", "rich", "byteReader"} {
+				for ri, rd := range readSchedules {
+					add(RSource{Kind: kd, Chunks: chunkSchedules[(ki*5+ri)%len(chunkSchedules)], FailAt: -1, Released: -1, EOFData: ri%2 == 0}, rd)
 				}
 			}
 		}
